@@ -309,7 +309,7 @@ func r083(c *Ctx, r *R) {
 	}
 	// writer: pb fields set
 	wPB := map[string]token.Pos{}
-	_, wr := fieldsUsed(pkg, mfd)
+	_, wr := fieldsUsedDeep(pkg, mfd)
 	for v, pos := range wr {
 		if v.Pkg() != nil && strings.HasSuffix(v.Pkg().Path(), "/api/pb") {
 			wPB[v.Name()] = pos
@@ -318,7 +318,14 @@ func r083(c *Ctx, r *R) {
 	// reader: getters called
 	rPB := map[string]token.Pos{}
 	direct := false
-	ast.Inspect(ufd.Body, func(n ast.Node) bool {
+	udecls := declClosure(pkg, ufd)
+	mdecls := declClosure(pkg, mfd)
+	inspectAll := func(ds []*ast.FuncDecl, f func(ast.Node) bool) {
+		for _, d := range ds {
+			ast.Inspect(d.Body, f)
+		}
+	}
+	inspectAll(udecls, func(n ast.Node) bool {
 		switch x := n.(type) {
 		case *ast.CallExpr:
 			if se, ok := x.Fun.(*ast.SelectorExpr); ok && strings.HasPrefix(se.Sel.Name, "Get") && isPB(pkg.TypesInfo.TypeOf(se.X)) {
@@ -356,8 +363,8 @@ func r083(c *Ctx, r *R) {
 	}
 	// api.Pin fields restored / serialised
 	lossy := map[string]string{"UserAllocations": "transient: only used while allocating (documented)", "Mode": "derived from MaxDepth on decode (ToPinMode)"}
-	_, uw := fieldsUsed(pkg, ufd)
-	mr, _ := fieldsUsed(pkg, mfd)
+	_, uw := fieldsUsedDeep(pkg, ufd)
+	mr, _ := fieldsUsedDeep(pkg, mfd)
 	for _, tn := range []string{"Pin", "PinOptions"} {
 		nt := c.namedType(r, "api", tn)
 		if nt == nil {
@@ -388,7 +395,7 @@ func r083(c *Ctx, r *R) {
 	pt := c.namedType(r, "api", "PinType")
 	if pt != nil {
 		shift := false
-		ast.Inspect(ufd.Body, func(n ast.Node) bool {
+		inspectAll(udecls, func(n ast.Node) bool {
 			if be, ok := n.(*ast.BinaryExpr); ok && be.Op == token.SHL {
 				if v := constVal(pkg, be.X); v != nil && constant.Compare(v, token.EQL, constant.MakeInt64(1)) {
 					shift = true
@@ -397,7 +404,7 @@ func r083(c *Ctx, r *R) {
 			return true
 		})
 		usesConv := false
-		ast.Inspect(mfd.Body, func(n ast.Node) bool {
+		inspectAll(mdecls, func(n ast.Node) bool {
 			if call, ok := n.(*ast.CallExpr); ok && funcFullName(pkg, call) == ModPath+"/api.convertPinType" {
 				usesConv = true
 			}
